@@ -41,8 +41,8 @@ theorem C22_rules_iff_spec (k : Kernel) : rulesOk k = true ↔ RulesSpec k := by
   rw [hd, hb]
 
 example : ∃ k : Kernel, RulesSpec k :=
-  ⟨⟨true, .node ⟨.okl true false ⟨.ok, .const 0, .ok, some .lt, .unknown, .ok, some .inc, .none⟩ false, []⟩
-      (.node ⟨.okl false true ⟨.ok, .const 0, .ok, some .lt, .const 8, .ok, some .inc, .none⟩ false, []⟩
+  ⟨⟨true, .node ⟨.okl true false ⟨.ok, .const 0, .ok, some .lt, .unknown, .ok, some .inc, .none, false⟩ false, []⟩
+      (.node ⟨.okl false true ⟨.ok, .const 0, .ok, some .lt, .const 8, .ok, some .inc, .none, false⟩ false, []⟩
         (.node ⟨.expr false false, []⟩ .nil .nil) .nil) .nil⟩,
    (C22_rules_iff_spec _).1 (by decide)⟩
 
@@ -53,7 +53,9 @@ theorem C22_never_traps (k : Kernel) : rulesRes k ≠ .trap := by
     intro h; unfold Hdr.verdict
     split
     · simp
-    · split <;> (try simp) <;> split <;> simp
+    · split
+      · simp
+      · split <;> (try simp) <;> split <;> simp
   have hl : ∀ kd : Kind, kd.loopVerdict ≠ .trap := by
     intro kd; cases kd <;> simp [Kind.loopVerdict]
     rename_i o i h nb
@@ -106,7 +108,7 @@ theorem C22_never_traps (k : Kernel) : rulesRes k ≠ .trap := by
   exact hand _ _ (hob _) (hand _ _ hloops (hand _ _ (hob _) (hob _)))
 
 example : ∃ h : Hdr, h.formsOk = true ∧ h.verdictUnrepaired = .trap ∧ h.verdict = .bad :=
-  ⟨⟨.ok, .const 0, .ok, some .lt, .const 8, .ok, some .add, .const 0⟩, by decide⟩
+  ⟨⟨.ok, .const 0, .ok, some .lt, .const 8, .ok, some .add, .const 0, false⟩, by decide⟩
 
 /-! ### one direction per rule, in the words of the property -/
 
@@ -227,10 +229,11 @@ theorem C22_same_validator :
   decide
 
 /-- the sources contain the repairs the model follows (F60 zero step, F61 continue in switch,
-    F62 at most three nested loops, F63 @outer and @inner on one loop) -/
+    F62 at most three nested loops, F63 @outer and @inner on one loop, F70 update direction) -/
 theorem C22_source_has_repairs :
     Occa.Gen.Okl.zeroStepGuard = true ∧ Occa.Gen.Okl.continueSkipsSwitch = true ∧
-    Occa.Gen.Okl.maxNestChecked = true ∧ Occa.Gen.Okl.bothAttrsInvalid = true := by
+    Occa.Gen.Okl.maxNestChecked = true ∧ Occa.Gen.Okl.bothAttrsInvalid = true ∧
+    Occa.Gen.Okl.directionChecked = true := by
   decide
 
 end Occa.Okl.C22
